@@ -135,6 +135,8 @@ type logicalLine struct {
 	line int
 }
 
+var chanInvTypeRe = regexp.MustCompile(`^\s*chan\[([^\]]+)\]\s*\(\s*([A-Za-z_][A-Za-z0-9_]*)\s*\)\s*:=\s*(.*)$`)
+
 var chanInvRe = regexp.MustCompile(`^\s*([A-Za-z_][A-Za-z0-9_]*\.[A-Za-z_][A-Za-z0-9_]*)\s*\(\s*([A-Za-z_][A-Za-z0-9_]*)\s*\)\s*:=\s*(.*)$`)
 
 // ChanInv: `chaninv Type.field(v) := expr` - every value sent into the channel stored in that field satisfies
@@ -142,6 +144,7 @@ var chanInvRe = regexp.MustCompile(`^\s*([A-Za-z_][A-Za-z0-9_]*\.[A-Za-z_][A-Za-
 // expression may only talk about v itself and immutable fields (it is evaluated in different states).
 type ChanInv struct {
 	Key, Short, Param, Src, Pkg, File string
+	ElemText                          string // chaninv chan[T]: the element type as written (resolved in Pkg)
 	Expr                              Expr
 	Line                              int
 }
@@ -465,9 +468,22 @@ func (cs *Contracts) loadFile(path, pkgPath string) error {
 			cs.ModSets[name] = items
 		case "chaninv":
 			// chaninv Type.field(v) := expr
+			if tm := chanInvTypeRe.FindStringSubmatch(l.rest); tm != nil {
+				// chaninv chan[T](v) := expr  - keyed by the element type: every channel of that element type
+				ce, err := parseSpec(tm[3])
+				if err != nil {
+					return fmt.Errorf("%s:%d: %v", path, l.line, err)
+				}
+				key := "chan:" + pkgPath + ":" + strings.TrimSpace(tm[1])
+				if _, dup := cs.ChanInvs[key]; dup {
+					return fmt.Errorf("%s:%d: second chaninv for chan[%s]", path, l.line, tm[1])
+				}
+				cs.ChanInvs[key] = &ChanInv{Key: key, Short: "chan[" + strings.TrimSpace(tm[1]) + "]", Param: tm[2], Expr: ce, Src: strings.Join(strings.Fields(tm[3]), " "), Pkg: pkgPath, File: path, Line: l.line, ElemText: strings.TrimSpace(tm[1])}
+				break
+			}
 			m := chanInvRe.FindStringSubmatch(l.rest)
 			if m == nil {
-				return fmt.Errorf("%s:%d: chaninv Type.field(v) := expr", path, l.line)
+				return fmt.Errorf("%s:%d: chaninv Type.field(v) := expr  |  chaninv chan[T](v) := expr", path, l.line)
 			}
 			ce, err := parseSpec(m[3])
 			if err != nil {
